@@ -838,36 +838,29 @@ where
         // only check surrogate here, and we will check the code pointer later when use
         // `codepoint_to_utf8`
         if (0xD800..0xDC00).contains(&point1) {
-            // parse the second utf8 code point of surrogate
-            let point2 = if let Some(asc) = self.read.next_n(6) {
-                if asc[0] != b'\\' || asc[1] != b'u' {
-                    if self.cfg.utf8_lossy {
-                        return Ok(0xFFFD);
-                    } else {
-                        // invalid surrogate
-                        return perr!(self, InvalidSurrogateUnicodeCodePoint);
-                    }
+            // parse the second utf8 code point of surrogate, it is only consumed when it is a
+            // low surrogate
+            let low_bit = match self.read.peek_n(6) {
+                Some(asc) if asc[0] == b'\\' && asc[1] == b'u' => {
+                    let point2 = unsafe {
+                        hex_to_u32_nocheck(&*(asc.as_ptr().add(2) as *const _ as *const [u8; 4]))
+                    };
+                    let low_bit = point2.wrapping_sub(0xdc00);
+                    ((low_bit >> 10) == 0).then_some(low_bit)
                 }
-                unsafe { hex_to_u32_nocheck(&*(asc.as_ptr().add(2) as *const _ as *const [u8; 4])) }
-            } else if self.cfg.utf8_lossy {
-                return Ok(0xFFFD);
-            } else {
-                // invalid surrogate
-                return perr!(self, InvalidSurrogateUnicodeCodePoint);
+                _ => None,
             };
 
-            /* calcute the real code point */
-            let low_bit = point2.wrapping_sub(0xdc00);
-            if (low_bit >> 10) != 0 {
-                if self.cfg.utf8_lossy {
-                    return Ok(0xFFFD);
-                } else {
-                    // invalid surrogate
-                    return perr!(self, InvalidSurrogateUnicodeCodePoint);
+            match low_bit {
+                /* calcute the real code point */
+                Some(low_bit) => {
+                    self.read.eat(6);
+                    Ok((((point1 - 0xd800) << 10) | low_bit).wrapping_add(0x10000))
                 }
+                None if self.cfg.utf8_lossy => Ok(0xFFFD),
+                // invalid surrogate
+                None => perr!(self, InvalidSurrogateUnicodeCodePoint),
             }
-
-            Ok((((point1 - 0xd800) << 10) | low_bit).wrapping_add(0x10000))
         } else if (0xDC00..0xE000).contains(&point1) {
             if self.cfg.utf8_lossy {
                 return Ok(0xFFFD);
